@@ -308,19 +308,20 @@ def _iterate_nodes(ex, node, st):
     n     = ty.len(nodes.term)
     ex.fail(st, _z3.And(n > 0, _z3.Or(off.term < 0, off.term >= n)), 'IndexError')
     Y = ex.fresh_wf(st, ty, 'Y')
-    i, j = _z3.Int(_C.fresh_name('i')), _z3.Int(_C.fresh_name('j'))
-    pos = _z3.If(off.term + i < n, off.term + i, off.term + i - n)
+    i, p = _z3.Int(_C.fresh_name('i')), _z3.Int(_C.fresh_name('p'))
+    pos = _z3.Function(_C.fresh_name('ypos'), _z3.IntSort(), _z3.IntSort())
+    inv = _z3.Function(_C.fresh_name('yinv'), _z3.IntSort(), _z3.IntSort())
     st.assume(ty.len(Y.term) == n)
+    # Y is a permutation of self.nodes (the rotation by _node_offset is one):
+    # Y[i] = nodes[pos(i)], pos a bijection on [0, n)
     st.assume(_z3.ForAll([i], _z3.Implies(_z3.And(0 <= i, i < n),
-              _z3.Select(ty.arr(Y.term), i) == _z3.Select(ty.arr(nodes.term), pos)),
+              _z3.And(0 <= pos(i), pos(i) < n, inv(pos(i)) == i,
+                      _z3.Select(ty.arr(Y.term), i) ==
+                      _z3.Select(ty.arr(nodes.term), pos(i)))),
               patterns=[_z3.Select(ty.arr(Y.term), i)]))
-    # consequence used by the caller: distinct positions -> distinct nodes
-    idx = lambda arr, k: ty.elem.get(_z3.Select(arr, k), 'index')
-    st.assume(_z3.Implies(
-        _z3.ForAll([i, j], _z3.Implies(_z3.And(0 <= i, i < j, j < n),
-                   idx(ty.arr(nodes.term), i) != idx(ty.arr(nodes.term), j))),
-        _z3.ForAll([i, j], _z3.Implies(_z3.And(0 <= i, i < j, j < n),
-                   idx(ty.arr(Y.term), i) != idx(ty.arr(Y.term), j)))))
+    st.assume(_z3.ForAll([p], _z3.Implies(_z3.And(0 <= p, p < n),
+              _z3.And(0 <= inv(p), inv(p) < n, pos(inv(p)) == p)),
+              patterns=[inv(p)]))
     new_off = _fresh(_TInt, 'node_offset')
     st.assume(_z3.And(new_off.term >= 0, _z3.Or(new_off.term < n, n == 0)))
     st.env['self._node_offset'] = new_off
@@ -386,6 +387,12 @@ REG.spec('agent/scheduler/continuous.py:Continuous.schedule_task',
        'val(result[0])[k].cores[j].index < val(result[0])[k2].cores[j2].index) and '
        'implies(task.description.gpus_per_rank >= 1 and 0 <= j < len(val(result[0])[k].gpus) and 0 <= j2 < len(val(result[0])[k2].gpus), '
        'val(result[0])[k].gpus[j].index < val(result[0])[k2].gpus[j2].index))))'),
+      ('lfs-per-node-within-what-the-node-has',
+       'implies(result[0] is not None, forall(lambda n: implies(0 <= n < len(self.nodes), '
+       'sumf("lfs_on", val(result[0]), None, self.nodes[n].index) <= self.nodes[n].lfs)))'),
+      ('mem-per-node-within-what-the-node-has',
+       'implies(result[0] is not None, forall(lambda n: implies(0 <= n < len(self.nodes), '
+       'sumf("mem_on", val(result[0]), None, self.nodes[n].index) <= self.nodes[n].mem)))'),
       ('colocated-only-on-nodes-used-for-the-tag',
        'implies(result[0] is not None and task.description.partition is None and '
        'task.description.tags.colocate is not None and indom(old(self._colo_history), val(task.description.tags.colocate)), '
@@ -404,9 +411,61 @@ REG.spec('agent/scheduler/continuous.py:Continuous.schedule_task',
             'implies(gpus_per_slot >= 1 and 0 <= j < len(alc_slots[k].gpus) and 0 <= j2 < len(alc_slots[k2].gpus), alc_slots[k].gpus[j].index < alc_slots[k2].gpus[j2].index)))',
             'implies(partition_id is None and colo_tag is not None and indom(old(self._colo_history), val(colo_tag)), '
             'forall(lambda k: implies(0 <= k < len(alc_slots), alc_slots[k].node_index in at(old(self._colo_history), val(colo_tag)))))',
+            # storage and memory held per node stay within what the node has left
+            'forall(lambda n: implies(0 <= n < len(self.nodes), '
+            'sumf("lfs_on", alc_slots, None, self.nodes[n].index) <= self.nodes[n].lfs))',
+            'forall(lambda n: implies(0 <= n < len(self.nodes), '
+            'sumf("mem_on", alc_slots, None, self.nodes[n].index) <= self.nodes[n].mem))',
             'implies(partition_id is None, self._colo_history == old(self._colo_history))',
             'implies(partition_id is None, colo_tag == td.tags.colocate)',
             ],
     },
-    opts   = dict(no_merge=False),
+    concat_lemmas = [('sum.lfs_on.extend-one-node', dict(y='node.index')),
+                     ('sum.mem_on.extend-one-node', dict(y='node.index'))],
+    opts   = dict(merge='scalars'),
     serves = ['C01', 'C02'])
+
+
+# ------------------------------------------------------------------------------
+# induction lemmas about the recursive sums (each: base + step obligation)
+#
+for _f, _g in (('lfs_on', 'lfs'), ('mem_on', 'mem')):
+    REG.lemma('sum.%s.all-on-node' % _f, induct='n',
+        vars  = dict(xs=SlotL, ni=T.Int),
+        hyps  = ['n <= len(xs)', 'forall(lambda k: implies(0 <= k < n, xs[k].node_index == ni))'],
+        goals = ['sumf("%s", xs, n, ni) == sumf("%s", xs, n)' % (_f, _g)],
+        patterns = ['sumf("%s", xs, n, ni)' % _f],
+        serves = ['C01'])
+    REG.lemma('sum.%s.none-on-node' % _f, induct='n',
+        vars  = dict(xs=SlotL, ni=T.Int),
+        hyps  = ['n <= len(xs)', 'forall(lambda k: implies(0 <= k < n, xs[k].node_index != ni))'],
+        goals = ['sumf("%s", xs, n, ni) == 0' % _f],
+        patterns = ['sumf("%s", xs, n, ni)' % _f],
+        serves = ['C01'])
+    # a list that agrees with `a` on the first la cells and continues with b
+    REG.lemma('sum.%s.concat' % _f, induct='n',
+        vars  = dict(out=SlotL, a=SlotL, b=SlotL, la=T.Int, ni=T.Int),
+        hyps  = ['0 <= la', 'forall(lambda i: implies(0 <= i < la, out[i] == a[i]))',
+                 'forall(lambda i: implies(la <= i < la + n, out[i] == b[i - la]))'],
+        goals = ['sumf("%s", out, la + n, ni) == sumf("%s", a, la, ni) + sumf("%s", b, n, ni)' % (_f, _f, _f)],
+        uses  = ['sum.%s.prefix' % _f],
+        serves = ['C01'])
+    # extending a placement by slots that all lie on one node y, none of the
+    # slots collected before being on y: y's total is the total of the new
+    # slots, every other node's total is unchanged
+    REG.lemma('sum.%s.extend-one-node' % _f, induct='n',
+        vars  = dict(out=SlotL, a=SlotL, b=SlotL, la=T.Int, y=T.Int, ni=T.Int),
+        hyps  = ['0 <= la', 'forall(lambda i: implies(0 <= i < la, out[i] == a[i]))',
+                 'forall(lambda i: implies(la <= i < la + n, out[i] == b[i - la]))',
+                 'forall(lambda k: implies(0 <= k < n, b[k].node_index == y))',
+                 'forall(lambda k: implies(0 <= k < la, a[k].node_index != y))'],
+        goals = ['sumf("%s", out, la + n, y) == sumf("%s", b, n)' % (_f, _g),
+                 'implies(ni != y, sumf("%s", out, la + n, ni) == sumf("%s", a, la, ni))' % (_f, _f)],
+        uses  = ['sum.%s.prefix' % _f, 'sum.%s.none-on-node' % _f],
+        patterns = ['sumf("%s", out, la + n, ni)' % _f],
+        serves = ['C01'])
+    REG.lemma('sum.%s.prefix' % _f, induct='n',
+        vars  = dict(out=SlotL, a=SlotL, ni=T.Int),
+        hyps  = ['forall(lambda i: implies(0 <= i < n, out[i] == a[i]))'],
+        goals = ['sumf("%s", out, n, ni) == sumf("%s", a, n, ni)' % (_f, _f)],
+        serves = ['C01'])
